@@ -434,6 +434,12 @@ def _r3_while(chk, prog, f, head, names):
                 cdx = cdec(list(d[1:]))
                 ne = (lambda kv: None if cdx.get(kv[0]) is None else int(cdx.get(kv[0]) == kv[1]))(canon('Ne(i0, ignore_word)', 1))
                 odd = (lambda kv: None if cdx.get(kv[0]) is None else int(cdx.get(kv[0]) == kv[1]))(canon('Ne(BitAnd(len(data), 1), 0)', 1))
+                if odd is None:      # the same test spelled with the remainder
+                    for alt_, pol_ in (('Eq(Rem(len(data), 2), 1)', 1), ('Ne(Rem(len(data), 2), 0)', 1), ('Eq(Rem(len(data), 2), 0)', 0), ('Eq(BitAnd(len(data), 1), 1)', 1)):
+                        kv_ = canon(alt_, 1)
+                        if cdx.get(kv_[0]) is not None:
+                            odd = int((cdx.get(kv_[0]) == kv_[1]) == bool(pol_))
+                            break
                 tail = ne == 1 and odd == 1
                 seen_tail.add((ne, odd))
                 want = r'Add\(sum0, Shl\((?:as_u32\()?index\(data, Sub\(len\(data\), 1\)\)\)?, 8\)\)' if tail else r'sum0'
